@@ -88,6 +88,7 @@ type GenCfg struct {
 	ForceLimits bool
 	SynData     bool // SYN segments may carry data
 	Short       bool // bias stream lengths down (many-connection lifecycle runs)
+	Wide        bool // once in a while: more connections and buffered pages than the pools' first allocation holds
 }
 
 // Plan is a generated run.
@@ -170,7 +171,39 @@ func Generate(c *sim.Ctx, cfg GenCfg) *Plan {
 		ord++
 	}
 	var maxT int64
-	for ci := 0; ci < nconn; ci++ {
+	wide := cfg.Wide && c.Chance(3)
+	if wide {
+		// Over a thousand connections at once, each with one segment buffered
+		// behind a missing byte: the connection pool and the page cache have to
+		// grow beyond their first allocation (1024 objects each). Few choices
+		// per connection, so that the tape stays short.
+		c.Fault("wide_run_over_1024_connections")
+		nconn = 1030 + c.Draw(40)
+		p.ReorderPm, p.DropPm, p.DupPm, p.Rexmits, p.PerConnLimit, p.TotalLimit = 0, 0, 0, 0, 0, 0
+		if c.Chance(300) {
+			p.TotalLimit = 1000 + c.Draw(60)
+		}
+		fill := c.Chance(800) // the missing byte arrives later (else only a flush releases the rest)
+		for ci := 0; ci < nconn; ci++ {
+			d := &Dir{Idx: len(p.Dirs), Conn: ci, Side: 0}
+			d.Net = gopacket.NewFlow(layers.EndpointIPv4, []byte{10, 0, byte(ci >> 8), byte(ci + 1)}, []byte{10, 1, byte(ci >> 8), byte(ci + 1)})
+			d.Src, d.Dst = layers.TCPPort(1000+ci), layers.TCPPort(80)
+			n := 3 + ci%5
+			fillStream(d, n)
+			d.ISN = 1000 + uint32(ci)*7919
+			p.Dirs = append(p.Dirs, d)
+			t0 := int64(ci) * 1000
+			add(t0, EvPkt, &Pkt{Dir: d.Idx, Seq: d.ISN, SYN: true, Kind: "syn"}, 0)
+			add(t0+500, EvPkt, &Pkt{Dir: d.Idx, Seq: d.ISN + 2, Off: 1, Len: n - 1, Kind: "data"}, 0)
+			t1 := int64(nconn)*1000 + 50_000 + int64(ci)*1000
+			if fill {
+				add(t1, EvPkt, &Pkt{Dir: d.Idx, Seq: d.ISN + 1, Off: 0, Len: 1, Kind: "data"}, 0)
+			}
+			add(t1+500, EvPkt, &Pkt{Dir: d.Idx, Seq: d.ISN + 1 + uint32(n), FIN: true, Off: n, Kind: "end"}, 0)
+			maxT = t1 + 500
+		}
+	}
+	for ci := 0; ci < nconn && !wide; ci++ {
 		ndir := 1 + c.Weighted(2, 3)
 		incs := 1
 		if cfg.Reopen && c.Chance(250) {
